@@ -785,6 +785,21 @@ def reorder_keyed_lists(kind, yang):
     return y
 
 
+def reorder_vector_lists(kind, yang):
+    """the same YANG topology with the keyed lists that become parallel vectors in the legacy form (g0_per_frequency,
+    loss_coef_per_frequency) listed in another order"""
+    y = copy.deepcopy(yang)
+    if kind == 'topology':
+        for e in y.get(TOPO_NS, {}).get('elements', []):
+            par = e.get('params', {})
+            if isinstance(par.get('loss_coef_per_frequency'), list):
+                par['loss_coef_per_frequency'] = par['loss_coef_per_frequency'][::-1]
+            rc = par.get('raman_coefficient')
+            if isinstance(rc, dict) and isinstance(rc.get('g0_per_frequency'), list):
+                rc['g0_per_frequency'] = rc['g0_per_frequency'][1:] + rc['g0_per_frequency'][:1]
+    return y
+
+
 IDENTITY_MODULE = {'topology': 'gnpy-network-topology', 'equipment': 'gnpy-eqpt-config', 'simparams': 'gnpy-sim-params'}
 
 
